@@ -91,4 +91,30 @@ def closeGroupSelect (ps : List Peer) (selfId : Nat) (client : Bool) : Option (L
     | none => none
     | some r => some (if client then r.filter (fun p => p.1 != selfId) else r)
 
+/-! ## The same decisions over ADDRESSES, as the code computes them: every distance is the `Distance` of the two
+addresses' SHA-256 digests; the range filters compare `convert_distance_to_u256(distance)`, the sorts compare the
+`Distance` itself (the 256-bit number). -/
+
+/-- a peer with its id and its address -/
+abbrev APeer := Nat × Addr
+
+/-- what `convert_distance_to_u256(&target.distance(&peer))` evaluates to -/
+def convDist (target p : Addr) : Nat := convert (distSha target p)
+
+/-- `get_peers_in_range(peers, address, range)` -/
+def getPeersInRangeAddr (target : Addr) (ps : List APeer) (range : Nat) : List APeer :=
+  ps.filter (fun p => within inRangeLe (convDist target p.2) range)
+
+/-- `Node::calculate_get_closest_peers` over addresses -/
+def calcClosestAddr (target : Addr) (ps : List APeer) (num : Option Nat) (range : Option Nat) : List APeer :=
+  match num, range with
+  | _, some r => ps.filter (fun p => within closestRangeLe (convDist target p.2) r)
+  | some n, none => ((ps.map (fun p => (p, distSha target p.2))).mergeSort (fun a b => decide (a.2 ≤ b.2))).map (·.1) |>.take n
+  | none, none => []
+
+/-- `sort_peers_by_key` over addresses: `none` = `NotEnoughPeers` -/
+def sortPeersByKeyAddr (target : Addr) (ps : List APeer) (expected : Nat) : Option (List APeer) :=
+  if closeGroupSize > ps.length then none
+  else some ((((ps.map (fun p => (p, distSha target p.2))).mergeSort (fun a b => decide (a.2 ≤ b.2))).map (·.1)).take expected)
+
 end SafeNet.Distance
